@@ -267,3 +267,27 @@ def requery_fields(c):
     vx, vy = lens.fields.get_vig_factor(0.0, 1.0)
     c.ensure_eq('C03.requery.vignetting_uses_the_current_field_table', c.val(vx), 0.3)
     c.ensure_eq('C03.requery.vignetting_uses_the_current_field_table', c.val(vy), 0.25)
+
+
+@contract('C03.requery.object_distance', [RG + ':RayGenerator.generate_rays', RG + ':RayGenerator._get_ray_origins', 'optiland/optic.py:Optic.set_thickness'],
+          ['C03', 'C01', 'C13'], bundle=True, max_paths=64)
+def requery_object_distance(c):
+    """after the object distance is edited (set_thickness on surface 0 -- what a thickness variable, pickup or scale_system does) the
+    ray starts on the object at its new distance *from the first surface* and is aimed at the pupil plane EPL behind *that* surface"""
+    lens, v, apv = _lens(c, True, 'EPD', 'object_height')
+    Hy, Px, Py = c.real('Hy', -1, 1), c.real('Px', -1, 1), c.real('Py', -1, 1)
+    c.require(Px * Px + Py * Py <= 1)
+    lens.ray_generator.generate_rays(0.0, Hy, c.arr(Px), c.arr(Py), 0.55)
+    newT = c.real('new_object_distance', 5, 60, positive=True)
+    lens.set_thickness(newT, 0)
+    EPL, EPD = c.val(lens.paraxial.EPL()), c.val(lens.paraxial.EPD())
+    vx, vy = lens.fields.get_vig_factor(0.0, Hy)
+    rays = lens.ray_generator.generate_rays(0.0, Hy, c.arr(Px), c.arr(Py), 0.55)
+    z1 = c.val(lens.surface_group.positions[1])
+    P0, D = pos_of(c, rays), dir_of(c, rays)
+    c.ensure_eq('C03.requery.object_at_its_new_distance_from_the_first_surface', P0[2], z1 - newT)
+    c.ensure_eq('C03.requery.object_height_unchanged_by_the_distance_edit', P0[1], Hy * 5.0)
+    P1 = (Px * EPD / 2 * (1 - c.val(vx)), Py * EPD / 2 * (1 - c.val(vy)), z1 + EPL)
+    cr = cross(D, tuple(P1[i] - P0[i] for i in range(3)))
+    for i in range(3):
+        c.ensure_eq('C03.requery.aimed_at_the_pupil_behind_the_first_surface_after_the_distance_edit', cr[i], 0)
